@@ -83,9 +83,11 @@ def validatePacket (validate : List UInt8 → IP.Verdict) (resolve : Target → 
           let payload ← slice "textData[len(tgtAddr):]" text n text.length
           return .ok (payload, ip, port)
 
-/-- one datagram from a client.  `cip` is the client IP as the cipher list sees it. -/
-def replaceAssoc (nat : List Assoc) (a : Assoc) : List Assoc := nat.map fun x => if x.client == a.client then a else x
+/-- in-place update of the natconn object of `client` -/
+def updateAssoc (nat : List Assoc) (client : String) (f : Assoc → Assoc) : List Assoc :=
+  nat.map fun x => if x.client == client then f x else x
 
+/-- one datagram from a client.  `cip` is the client IP as the cipher list sees it. -/
 def upstream (dnsPort : Nat) (ki : KeyInfo) (validate : List UInt8 → IP.Verdict) (resolve : Target → Resolved)
     (st : State) (client : String) (cip : Option Nat) (wire : Nat) (opens : List Nat) (plain : List UInt8) :
     State × List Eff :=
@@ -110,7 +112,7 @@ def upstream (dnsPort : Nat) (ki : KeyInfo) (validate : List UInt8 → IP.Verdic
       | .error p => (st, [.search true, .panic p])
       | .ok (.error status) => (st, [.search true, .report status wire 0])
       | .ok (.ok (payload, ip, port)) =>
-        ({ st with nat := replaceAssoc st.nat (a.onWrite port dnsPort) },
+        ({ st with nat := updateAssoc st.nat client (fun x => x.onWrite port dnsPort) },
          [.search true, .send a.sock ip port payload, .report "OK" wire payload.length])
     else (st, [.search false, .report "ERR_CIPHER" wire 0])
 
@@ -144,13 +146,12 @@ def relayReply (bufSize maxAddrLen : Nat) (a : Assoc) (srcIP : List UInt8) (srcP
 def downstream (dnsPort bufSize maxAddrLen : Nat) (st : State) (a : Assoc) (srcIP : List UInt8) (srcPort : Nat) (body : List UInt8) :
     State × List Eff :=
   let fast := a.armed && srcPort == dnsPort
-  let a' := { a with armed := false }
   let effs := relayReply bufSize maxAddrLen a srcIP srcPort body
   if effs.any (fun e => match e with | .panic _ => true | _ => false) then (st, effs)
   else if fast then
     ({ st with nat := st.nat.filter (fun x => !(x.client == a.client)), closedSocks := a.sock :: st.closedSocks },
      effs ++ [.natRemove a.client a.sock])
-  else ({ st with nat := replaceAssoc st.nat a' }, effs)
+  else ({ st with nat := updateAssoc st.nat a.client (fun x => { x with armed := false }) }, effs)
 
 /-- the copier of `client` sees its read time out: RemoveNatEntry, del, Close -/
 def expire (st : State) (client : String) : State × List Eff :=
